@@ -98,6 +98,10 @@ theorem inv_swReturn {s s'} (h : Inv s) (hs : step s .swReturn = some s') : Inv 
 theorem inv_swRerun {s s'} (h : Inv s) (hs : step s .swRerun = some s') : Inv s' := by inv_step hs
 theorem inv_swExit {s s' o} (h : Inv s) (hs : step s (.swExit o) = some s') : Inv s' := by
   cases o <;> inv_step hs
+theorem inv_swBackoff {s s' o} (h : Inv s) (hs : step s (.swBackoff o) = some s') : Inv s' := by
+  cases o <;> inv_step hs
+theorem inv_swTimer {s s' g} (h : Inv s) (hs : step s (.swTimer g) = some s') : Inv s' := by inv_step hs
+theorem inv_swCtxDone {s s' g} (h : Inv s) (hs : step s (.swCtxDone g) = some s') : Inv s' := by inv_step hs
 
 theorem inv_step {s s' a} (h : Inv s) (hs : step s a = some s') : Inv s' := by
   cases a with
@@ -137,6 +141,9 @@ theorem inv_step {s s' a} (h : Inv s) (hs : step s a = some s') : Inv s' := by
   | swReturn => exact inv_swReturn h hs
   | swRerun => exact inv_swRerun h hs
   | swExit o => exact inv_swExit h hs
+  | swBackoff o => exact inv_swBackoff h hs
+  | swTimer g => exact inv_swTimer h hs
+  | swCtxDone g => exact inv_swCtxDone h hs
 
 theorem inv_reach {s} (h : Reach s) : Inv s := by
   induction h with
@@ -163,6 +170,7 @@ theorem oldLive_step {s s' : St} {a : Act} (h : s.oldLive = []) (hs : step s a =
   | cM o => cases o <;> simp only [step] at hs <;> (repeat' split at hs) <;> cases hs <;> exact h
   | cCas o => cases o <;> simp only [step] at hs <;> (repeat' split at hs) <;> cases hs <;> exact h
   | swExit o => cases o <;> simp only [step] at hs <;> (repeat' split at hs) <;> cases hs <;> exact h
+  | swBackoff o => cases o <;> simp only [step] at hs <;> (repeat' split at hs) <;> cases hs <;> exact h
   | _ => simp only [step] at hs; (repeat' split at hs) <;> cases hs <;> exact h
 
 theorem oldLive_reach {s} (h : Reach s) : s.oldLive = [] := by
@@ -216,6 +224,11 @@ theorem rerun_step {s s' : St} {a : Act} (hs : step s a = some s') (hf : s.flag 
   | cM o => cases o <;> simp only [step] at hs <;> (repeat' split at hs) <;> cases hs <;> simp [Act.rerun, hf]
   | cCas o => cases o <;> simp only [step] at hs <;> (repeat' split at hs) <;> cases hs <;> simp [Act.rerun, hf]
   | swExit o => cases o <;> simp only [step] at hs <;> (repeat' split at hs) <;> cases hs <;> simp [Act.rerun, hf]
+  | swBackoff o => cases o <;> simp only [step] at hs <;> (repeat' split at hs) <;> cases hs <;> simp [Act.rerun, hf]
+  | swTimer g =>
+    simp only [step, hf] at hs
+    (repeat' split at hs) <;> (try cases hs) <;> (try simp [Act.rerun]) <;> (try contradiction)
+  | swCtxDone g => simp only [step] at hs; (repeat' split at hs) <;> cases hs <;> simp [Act.rerun, hf]
   | _ =>
     simp only [step] at hs
     (repeat' split at hs) <;> cases hs <;> simp only [Act.rerun] <;> (try dsimp only) <;> grind
@@ -237,6 +250,7 @@ theorem active_other {s s' : St} {a : Act} (hs : step s a = some s') (h1 : a ≠
   | cCas o => cases o <;> simp only [step] at hs <;> (repeat' split at hs) <;> cases hs <;> simp [St.active]
   | cFast o => cases o <;> simp only [step] at hs <;> (repeat' split at hs) <;> cases hs <;> simp [St.active]
   | swExit o => cases o <;> simp only [step] at hs <;> (repeat' split at hs) <;> cases hs <;> simp [St.active]
+  | swBackoff o => cases o <;> simp only [step] at hs <;> (repeat' split at hs) <;> cases hs <;> simp [St.active]
   | startBegin =>
     simp only [step] at hs
     simp only [startCtx, startOps, List.foldl, applyStartOp] at hs
